@@ -90,3 +90,11 @@
 (declare-fun reSplit (String String Int) SLst)
 (declare-fun tomlParseF (String) Val)
 (declare-fun tomlParseE (String) ErrV)
+; the format table: fmtByName k is the codec registered under the name k (0 = no such format); fmtTable is the same as an array
+(declare-const fmtTable (Array String Int))
+(define-fun fmtByName ((k String)) Int (select fmtTable k))
+; the file system as seen through os.Stat / filepath.Ext
+(declare-fun pathExt (String) String)
+(declare-fun statE (String) ErrV)
+(declare-const osErrNotExist ErrV)
+(define-fun fileMissing ((p String)) Bool (= (statE p) osErrNotExist))
